@@ -93,7 +93,14 @@ def check(F, rep):
     bw = field_writes(f, "bucket")
     rep.exact("live-update", "assignments to this.bucket", len(bw), 1)
     clears = [(b, i, s) for b, i, s in ws if (b, i, s) not in stores]
+    fc = find_calls(f, BUCKET + "::from_config")
+    rep.exact("live-update", "Bucket::from_config calls in poll_read", len(fc), 1)
     for b, i, s in bw:
+        if fc:
+            fts, _ = call_result_tests(f, fc[0][0])
+            src = copy_sources(f, op_base(s["rv"]["o"])) if s["rv"]["k"] == "use" and s["rv"]["o"]["k"] in ("copy", "move") else set()
+            rep.ob("live-update", requires(f, b, fts) and bool(src) and all(x[0] == "call" and x[1] == BUCKET + "::from_config" for x in src), site(f, b),
+                   "the installed bucket is replaced only by a successfully validated configuration (an invalid live update keeps the current limit); sources %s" % sorted(map(str, src)), skey(F, f, "update-requires-valid"))
         ok = any(f.dominates(b, cb_) and f.postdominates(cb_, b) for cb_, _, _ in clears)
         rep.ob("live-update", ok, site(f, b), "replacing the bucket clears the pending sleep on the same path", skey(F, f, "update-clears"))
 
